@@ -55,8 +55,28 @@ def apply_variant(root, v):
     return True
 
 
+class _VariantTimeout(Exception):
+    pass
+
+
+def _alarm(signum, frame):
+    raise _VariantTimeout()
+
+
 def run_variant(args):
     v, props = args
+    import signal
+    signal.signal(signal.SIGALRM, _alarm)
+    signal.alarm(300)
+    try:
+        return _run_variant(v, props)
+    except _VariantTimeout:
+        return (v['id'], 'error', ['the analysis of this variant did not terminate within 300 s'])
+    finally:
+        signal.alarm(0)
+
+
+def _run_variant(v, props):
     from . import rdefs
     from .main import run_property
     tmp = tempfile.mkdtemp(prefix='verif-selftest-')
